@@ -162,3 +162,46 @@ func VH_C15_outcomes() {
 	verifAssert("C15.outcomes.conn-closed", conn.closed == 1)
 	verifReach("C15.outcomes.relay-target-error", want == "ERR_RELAY_TARGET")
 }
+
+
+// a second connection is accepted, authenticated and served completely while the first one is
+// between its authentication and the reading of its target address: both streams stay intact
+func VH_C02_interleaved_connections() {
+	cl, specs, entries := verifMakeList(1, 1, false)
+	key := verifKey(specs[0].cipher, verifSecrets[specs[0].secret])
+	mk := func(name string, host byte, data []byte) (*verifStreamConn, *verifStreamConn, []byte) {
+		stream := verifClientStream(key, append([]byte{1, 93, 184, 216, host, 0, 80}, data...))
+		verifAssume(!entries[0].SaltGenerator.IsServerSalt(stream[:key.SaltSize()]))
+		c := &verifStreamConn{name: name, remote: &net.TCPAddr{IP: net.IPv4(203, 0, 113, 5), Port: 50000 + int(host)}}
+		c.reads = []verifSRead{{data: stream}}
+		t := &verifStreamConn{name: name + "-target", remote: &net.TCPAddr{IP: net.IPv4(93, 184, 216, host), Port: 80}}
+		return c, t, stream
+	}
+	d1, d2 := verifBytes("d1", 2), verifBytes("d2", 3)
+	c1, t1, _ := mk("c1", 34, d1)
+	c2, t2, _ := mk("c2", 35, d2)
+	h := NewStreamHandler(NewShadowsocksStreamAuthenticator(cl, nil, nil, nil), tcpReadTimeout)
+	m1, m2 := &verifTCPMetrics{}, &verifTCPMetrics{}
+	dialer := &verifDialer2{targets: map[string]*verifStreamConn{"93.184.216.34:80": t1, "93.184.216.35:80": t2}}
+	h.SetTargetDialer(dialer)
+	m1.onAuth = func() { h.Handle(contextBackground(), c2, m2) }
+	h.Handle(contextBackground(), c1, m1)
+	verifAssert("C02.interleaved.first-ok", len(m1.closed) == 1 && m1.closed[0] == "OK")
+	verifAssert("C02.interleaved.second-ok", len(m2.closed) == 1 && m2.closed[0] == "OK")
+	verifAssert("C02.interleaved.first-intact", len(t1.written) == 2 && verifBytesEq(t1.written, d1))
+	verifAssert("C02.interleaved.second-intact", len(t2.written) == 3 && verifBytesEq(t2.written, d2))
+	verifReach("C02.interleaved.done", true)
+}
+
+type verifDialer2 struct {
+	targets map[string]*verifStreamConn
+	dials   []string
+}
+
+func (d *verifDialer2) DialStream(ctx contextContext, addr string) (transportStreamConn, error) {
+	d.dials = append(d.dials, addr)
+	if t, ok := d.targets[addr]; ok {
+		return t, nil
+	}
+	return nil, errVerifFault
+}
